@@ -38,10 +38,12 @@ def _contains_zero_divisor_or_undefined_constant(model, envs):
     """
     for n in ev._walk(model):
         closed = not any(x[0] in ('this', 'var') for x in ev._walk(n))
+        if n[0] == 'lit' and isinstance(n[2], float) and (n[2] != n[2] or n[2] in (float('inf'), float('-inf'))):
+            return True  # INF / NAN are outside the evaluator's domain
         if closed and n[0] in ('bin', 'un', 'call', 'calln', 'index', 'range', 'set'):
             st, _ = ev.try_ev(n, ev.Env())
-            if st == 'undef':
-                return True
+            if st in ('undef', 'ambig', 'illcond'):
+                return True  # undefined, or the oracle cannot interpret this constant: abstain
         if n[0] == 'bin' and n[1] == '/':
             statuses = set()
             nonzero = False
@@ -68,8 +70,8 @@ def _contains_zero_divisor_or_undefined_constant(model, envs):
                 sts.add(st)
                 if st == 'ok':
                     break
-            if 'ok' not in sts and 'undef' in sts:
-                return True
+            if 'ok' not in sts:
+                return True  # never defined on the grid: nothing the oracle could compare
     return False
 
 
